@@ -114,6 +114,15 @@ def haLeaf (div : Nat → Rat) : Sem := fun a => do
                     && decide (natLookup prev p.1 0 < natLookup caps p.1 0)))
         then throw .valueError
         else throw eType
+    | some (.num r) =>
+        if r.den = 1 ∧ r.num < 0 then
+          -- a negative seat count (left over when earlier stages over-awarded): nobody without an
+          -- explicit cap is below `max_seats.get(cand, n_seats)`; a non-empty pool gives no seats at all
+          if votes.any (fun p => decide (0 < div (natLookup prev p.1 0)) && caps.any (fun q => q.1 = p.1)
+                && decide (natLookup prev p.1 0 < natLookup caps p.1 0))
+          then return (.dict [])
+          else throw .valueError
+        else (V.num r).asNat
     | some v => v.asNat
     | Option.none => throw eType
   let r ← highestAverages { div := div, votes := votes, n := n, prev := prev, caps := caps }
